@@ -61,7 +61,10 @@ func calleeOfNode(w *IPWalk, n Node) string {
 	if k := calleeKey(cc); k != "" {
 		return k
 	}
-	if f, _, _ := w.ResolveFunc(n.Ctx, cc); f != nil {
+	if cc.IsInvoke() {
+		return ""
+	}
+	if f, _, _ := resolveFuncValue(n.Ctx, cc.Value, 0); f != nil {
 		return funcKey(f)
 	}
 	return ""
@@ -127,9 +130,9 @@ func nameAbs(ctx *Ctx, v ssa.Value, d int) string {
 	case *ssa.Call:
 		switch calleeKey(&x.Call) {
 		case "pogreb.segmentName":
-			return "SEG"
+			return "SEGCANON"
 		case "pogreb.segmentMetaName":
-			return "SEG.pmt"
+			return "SEGCANON.pmt"
 		case "path/filepath.Join":
 			return "?"
 		}
@@ -139,7 +142,7 @@ func nameAbs(ctx *Ctx, v ssa.Value, d int) string {
 	case *ssa.UnOp:
 		if x.Op == token.MUL {
 			if fieldName(x.X) == "pogreb.segment.name" {
-				return "SEG"
+				return "SEGNAME"
 			}
 			if a, ok := x.X.(*ssa.Alloc); ok {
 				st := allocStores(a)
@@ -150,7 +153,7 @@ func nameAbs(ctx *Ctx, v ssa.Value, d int) string {
 		}
 	case *ssa.Field:
 		if fieldName(x) == "pogreb.segment.name" {
-			return "SEG"
+			return "SEGNAME"
 		}
 	case *ssa.Parameter:
 		if ctx != nil && ctx.Parent != nil && ctx.Site != nil {
